@@ -351,3 +351,12 @@ func condSel(fe, a, b *Element, pickB bool) {
 	}
 	*fe = r
 }
+
+// VerifSumOK: limbs below n times the reduced-output bound (a sum of n reduced elements).
+func VerifSumOK(e *Element, n uint64) bool {
+	ok := true
+	for i := 0; i < 5; i++ {
+		ok = ok && e.inner[i] < n<<outBits
+	}
+	return ok
+}
